@@ -29,13 +29,13 @@ def generate(tier, seed):
     preds = ["'<", "'>", "'<=", "(lambda (a b) (< a b))", "(lambda (a b) t)", "(lambda (a b) nil)",
              "(lambda (a b) (tick 1) (< (mod (* a 7) 5) (mod (* b 3) 5)))",       # deterministic, inconsistent
              "(lambda (a b) (tick a) (< a b))", "(lambda (a b) (< (tick b) a))"]
-    for _ in range(300 if tier == "quick" else 3000):
+    for _ in range(1000 if tier == "quick" else 12000):
         n = rng.choice([0, 1, 2, 3, 5, 8, 13, 21, 40, 100])
         xs = [rng.randint(-5, 5) for _ in range(n)]
         l = "(" + " ".join(map(str, xs)) + ")"
         p = rng.choice(preds)
         reqs.append(["(setq l '%s)" % l, "(sort l %s)" % p, "l"])
-    for _ in range(60 if tier == "quick" else 600):
+    for _ in range(200 if tier == "quick" else 2500):
         n = rng.randint(2, 30)
         ws = ['"%s"' % "".join(rng.choice("abcé ") for _ in range(rng.randint(0, 3))) for _ in range(n)]
         l = "(" + " ".join(ws) + ")"
